@@ -183,6 +183,7 @@ type Exec struct {
 	inInit, inLenient bool
 	feasAlways bool
 	feasTag string
+	fresh   map[string]int
 	initSkipped []string
 }
 
